@@ -31,7 +31,9 @@ fn main() -> ExitCode {
     // The boss (CLI) and doer modes have different command-line arguments, so handle them separately.
     #[cfg(rjrssync_verif)]
     if std::env::args().nth(1).as_deref() == Some("--verif-harness") { return verif_harness::main(); }
-    if std::env::args().any(|a| a == "--doer") {
+    // (args_os rather than args, which panics on an argument that isn't valid Unicode - the
+    // command-line parsers below report such an argument as a usage error instead.)
+    if std::env::args_os().any(|a| a == "--doer") {
         doer_main()
     } else {
         boss_main()
